@@ -1,6 +1,7 @@
 package checks
 
 import (
+	"bytes"
 	"errors"
 	"fmt"
 	"runtime"
@@ -117,7 +118,49 @@ func runStep(prop string, st *buildStep, where string) *Violation {
 	if v := vectorSegmentCheck(prop, seg, want, where); v != nil {
 		return v
 	}
+	// what the segment reports about itself is part of what the batch determines: its image
+	// carries a checksum of exactly its own bytes, and its bytes-written statistic counts a
+	// subset of those bytes (for an empty batch: the same as on a new builder)
+	if sb, ok := seg.(*zap.SegmentBase); ok {
+		var buf bytes.Buffer
+		if err := drive.Safe(func() error {
+			_, e := sb.WriteTo(&buf)
+			return e
+		}); err != nil {
+			return violation(prop, "history/writeto-error", "%s: %v", where, err)
+		}
+		if v := checkFooter(prop, buf.Bytes(), want.Count, effMode(st.ChunkMode)); v != nil {
+			v.Signature = "history/" + v.Signature
+			v.Message = where + ": " + v.Message
+			return v
+		}
+		if bw := sb.BytesWritten(); bw > uint64(buf.Len()) {
+			return violation(prop, "history/bytes-written-exceeds-image", "%s: the segment reports %d bytes written, its whole image has %d", where, bw, buf.Len())
+		}
+		if want.Count == 0 && sb.BytesWritten() != emptyBuildStat.bytesWritten {
+			return violation(prop, "history/empty-batch-statistic", "%s: a segment built from an empty batch reports %d bytes written, on a new builder it reports %d", where, sb.BytesWritten(), emptyBuildStat.bytesWritten)
+		}
+	}
 	return nil
+}
+
+// emptyBuildStat holds what a build of an empty batch on a new builder reports (measured once,
+// before any history runs).
+var emptyBuildStat struct {
+	once         sync.Once
+	bytesWritten uint64
+}
+
+func measureEmptyBuild() {
+	emptyBuildStat.once.Do(func() {
+		zap.VerifResetPools()
+		seg, _, err := drive.Build(&spec.BatchSpec{}, 0)
+		if err != nil {
+			panic(err)
+		}
+		emptyBuildStat.bytesWritten = seg.(*zap.SegmentBase).BytesWritten()
+		seg.Close()
+	})
 }
 
 type stepInfo struct {
@@ -146,6 +189,7 @@ func runHistoryCase(c historyCase) *Violation {
 	// a GC cycle empties sync.Pools; large batches would otherwise trigger one between two
 	// builds and the later build would silently get a fresh builder
 	defer debug.SetGCPercent(debug.SetGCPercent(-1))
+	measureEmptyBuild()
 	zap.VerifResetPools()
 	oldValidate := zap.ValidateDocFields
 	defer func() { zap.ValidateDocFields = oldValidate }()
@@ -253,6 +297,7 @@ func TestC10ReuseMeasured(t *testing.T) {
 
 func runConcHistoryCase(c concHistoryCase) *Violation {
 	const prop = "C10"
+	measureEmptyBuild()
 	zap.VerifResetPools()
 	var wg sync.WaitGroup
 	res := make([]*Violation, len(c.Histories))
